@@ -92,6 +92,8 @@ def lt_expectation(m):
     lo, hi = math.floor(m), math.ceil(m)
     cands = sorted(set([lo, hi]))
     near = [c for c in cands if abs(m - c) == min(abs(m - x) for x in cands)]
+    if m == 0:
+        return 0.0, [0.0]  # a measured 0 cycles (eliminated move, zeroing idiom) is the integer 0 exactly
     if 0 in near or m <= 0:
         return None, [float(c) for c in cands] + ["null"]
     strict = [c for c in near if max(abs(m - c) / c, abs(m - c) / m) <= 0.047]
@@ -231,7 +233,9 @@ def gen_measure(rnd, kind):
         if kind == "tp":
             m = rnd.choice([1 / 11, 1 / 12, 1 / 16, 0.07, 0.0, 1.2, 1.5, 2.0, 3.0, 0.62, 0.41, 0.29, 0.225, 0.18, 0.155, 0.75, 0.0851])
         else:
-            m = rnd.choice([1.5, 2.5, 1.3, 2.3, 3.4, 4.5, 5.5, 6.4, 7.5, 8.5, 9.5, 1.2, 1.8, 2.75, 0.8, 0.6])
+            m = rnd.choice([1.5, 2.5, 1.3, 2.3, 3.4, 4.5, 5.5, 6.4, 7.5, 8.5, 9.5, 1.2, 1.8, 2.75, 0.8, 0.6, 0.0, 0.0, 0.0])
+            if m == 0.0:
+                cls = "zero"
     digits = rnd.choice([3, 3, 4, 5])
     return ("%." + str(digits) + "f") % m, cls
 
@@ -534,6 +538,8 @@ def judge(case, text, idx, R, mode):
         lt_must, lt_may = lt_expectation(float(f["lt"])) if has_lt else ("null", ["null"])
         R.count("tp:" + ("no-line" if not has_tp else "dont-care" if tp_must is None else "must-null" if tp_must == "null" else "must-snap"))
         R.count("lt:" + ("no-line" if not has_lt else "dont-care" if lt_must is None else "must-null" if lt_must == "null" else "must-snap"))
+        if has_lt and float(f["lt"]) == 0.0:
+            R.count("lt_measured_zero")
         if has_tp and tp_must not in (None, "null"):
             R.observe("snapped_reciprocals", "1/%d" % round(1 / tp_must))
         fresh = up not in idx and not any(g is not f and g["mnemonic"].upper() == up for g in case["forms"])
@@ -626,7 +632,7 @@ def floors(tier):
         "mode:api": 150, "mode:cli": 15, "mode:subprocess": 2,
         "tp:must-snap": 220, "tp:must-null": 70, "tp:dont-care": 35, "tp:no-line": 30,
         "lt:must-snap": 250, "lt:must-null": 50, "lt:dont-care": 25, "lt:no-line": 30,
-        "mclass:fresh": 170, "mclass:existing": 100, "mclass:tplt": 80, "mclass:repeat": 25, "case:upper": 150, "case:lower": 250,
+        "mclass:fresh": 170, "mclass:existing": 100, "mclass:tplt": 80, "mclass:repeat": 25, "case:upper": 150, "case:lower": 250, "lt_measured_zero": 3,
         "corrupt:none": 45, "corrupt:blank-replaced": 4, "corrupt:blank-deleted": 4, "corrupt:line-inserted": 4, "corrupt:final-blank-missing": 4,
         "forms_after_bad_block": 15, "order:interleaved": 20, "order:grouped": 50,
     }
